@@ -65,6 +65,9 @@ func (w *WorkerResult) violate(v Violation) {
 	if len(w.Violations) < 20 {
 		w.Violations = append(w.Violations, v)
 	}
+	if f := os.Getenv("VERIF_CLAIM"); f != "" && v.Known == "" {
+		os.WriteFile(f+".stop", nil, 0o644)
+	}
 }
 
 // RunCtx is handed to a check's worker body.
@@ -85,6 +88,11 @@ func (c *RunCtx) mine(i int) bool { return i%c.Workers == c.Worker }
 // claim hands out work-unit indices 0,1,2,... dynamically across the worker processes
 // (a counter file under flock); every unit is claimed by exactly one worker.
 func (c *RunCtx) claim() int {
+	if c.ClaimFile != "" {
+		if _, err := os.Stat(c.ClaimFile + ".stop"); err == nil {
+			return 1 << 30 // another worker found a violation: stop early
+		}
+	}
 	if c.ClaimFile == "" {
 		c.local++
 		for (c.local-1)%c.Workers != c.Worker {
@@ -107,6 +115,14 @@ func (c *RunCtx) claim() int {
 	f.Truncate(0)
 	f.WriteAt([]byte(strconv.Itoa(v+1)), 0)
 	return v
+}
+
+func (c *RunCtx) stopped() bool {
+	if c.ClaimFile == "" {
+		return false
+	}
+	_, err := os.Stat(c.ClaimFile + ".stop")
+	return err == nil
 }
 
 func (c *RunCtx) expired() bool { return time.Now().After(c.Deadline) }
@@ -203,6 +219,7 @@ func parent(ck *Check, tier string, seed int64, secs int, nw int) int {
 	claim := filepath.Join(filepath.Dir(self), fmt.Sprintf(".claim-%d", os.Getpid()))
 	os.Remove(claim)
 	defer os.Remove(claim)
+	defer os.Remove(claim + ".stop")
 	results := make([]*WorkerResult, nw)
 	errs := make([]string, nw)
 	var wg sync.WaitGroup
@@ -367,7 +384,7 @@ func writeEvidence(ck *Check, tier string, seed int64, t *WorkerResult, nviol in
 		"distinct_nontrivial":           t.Distinct,
 		"rule":                          ck.Rule,
 		"samples":                       samples,
-		"exhaustive":                    !t.Capped && toolErr == "",
+		"exhaustive":                    !t.Capped && toolErr == "" && nviol == 0,
 		"counters":                      t.Counters,
 		"workers":                       runtime.NumCPU(),
 	}
